@@ -36,7 +36,7 @@ Definition wit_b : bstate :=
   mkB wit_store [0; 1] [(key_of c1, (c1, [0; 1]))] [key_of c1] (new_namer (s "x")) 0.
 
 Theorem legacy_keep_flags_refuted :
-  exists (b : bstate) (k : fkey), cut_fragments (mkCfg false true true true) b k = Err ValueError
+  exists (b : bstate) (k : fkey), cut_fragments (mkCfg false true true true true) b k = Err ValueError
     /\ exists b', cut_fragments repaired b k = Ok b' /\ b_cuts b' = b_cuts b + 1.
 Proof.
   exists wit_b, (key_of c1). split.
